@@ -112,3 +112,27 @@ PROPS["C12"] = dict(
         dict(test="^Test(Regress_C12|C12_Write|C12_MissingName)$", quick=dict(checks=250, timeout=900), thorough=dict(checks=2500, shards=12, timeout=3000)),
     ],
 )
+
+PROPS["C04"] = dict(
+    pkg="c04", race=True, level="exploration",
+    technique="rapid state-machine histories with a harness-owned worker schedule (gated appender) against a bounded-FIFO reference model; randomised multi-producer runs under the race detector",
+    level_text="Exploration over schedules: in domain A the harness single-steps the async worker through a gated appender, so buffer occupancy is a deterministic function of the generated history and a bounded-FIFO model (capacity N + one in-flight slot) gives the exact delivered count and discard counter after Stop; in domain B 1-32 producers run against fast/slow/stalling appenders and delivered + discarded = submitted, no duplicates, nothing disabled delivered, Block => counter 0 are checked.",
+    level_note="Trusted: the harness queue model and gated recording appender. For Refresh-built loggers the discard counter is not observable through public API (only the delivered set is compared). Domain B samples schedules.",
+    rule="generated histories / producer mixes",
+    steps=[
+        dict(test="^TestC04_Controlled$", quick=dict(checks=300, timeout=900), thorough=dict(checks=1500, shards=10, timeout=3000)),
+        dict(test="^TestC04_Random$", quick=dict(checks=40, timeout=900), thorough=dict(checks=200, shards=6, timeout=3000)),
+    ],
+)
+PROPS["C06"] = dict(
+    pkg="c06", race=True, level="exploration",
+    technique="rapid state-machine histories plus bounded-exhaustive short histories from a full buffer, with a harness-owned worker schedule, against an executable queue model per overflow policy",
+    level_text="Exploration over histories: with the worker parked in a gated appender, every generated history (and every history of length <= 4 quick / <= 6 thorough from a full buffer) must deliver exactly the sequence the policy's queue model predicts (Discard drops the arriving item, DiscardOldest the head, Block waits); a discard-policy call must return while the gate stays shut for good, a Block call must not return before the worker takes an item and must return after; randomised multi-producer runs check per-producer order.",
+    level_note="Trusted: the harness queue model; 'does not block' is judged only while the gate is never released (definitive), 'blocks' by a 30 ms grace a correct implementation cannot fail. Domain B samples schedules.",
+    rule="generated and enumerated histories",
+    steps=[
+        dict(test="^TestC06_Controlled$", quick=dict(checks=300, timeout=900), thorough=dict(checks=2000, shards=10, timeout=3000)),
+        dict(test="^TestC06_Exhaustive$", quick=dict(timeout=900), thorough=dict(shards=6, timeout=3000)),
+        dict(test="^TestC06_RandomOrder$", quick=dict(checks=30, timeout=900), thorough=dict(checks=200, shards=6, timeout=3000)),
+    ],
+)
